@@ -128,13 +128,17 @@ class Expr:
         raise TranslateError('unsupported expression: ' + ast.dump(e)[:160])
 
 
+def is_log_func(e):
+    return isinstance(e, ast.Attribute) and e.attr == 'log10' and isinstance(e.value, ast.Name) and e.value.id in ('np', 'math')
+
+
 def is_log_select(s):
-    """if isinstance(d, Iterable): log10 = np.log10 else: log10 = math.log10"""
+    """if isinstance(d, Iterable): log10 = np.log10 else: log10 = math.log10   (both values must be a log10)"""
     return (isinstance(s, ast.If) and isinstance(s.test, ast.Call)
             and isinstance(s.test.func, ast.Name) and s.test.func.id == 'isinstance'
             and bool(s.body) and bool(s.orelse)
             and all(isinstance(b, ast.Assign) and isinstance(b.targets[0], ast.Name)
-                    and b.targets[0].id == 'log10' for b in s.body + s.orelse))
+                    and b.targets[0].id == 'log10' and is_log_func(b.value) for b in s.body + s.orelse))
 
 
 def is_warn_only(s):
@@ -153,10 +157,6 @@ def is_warn_only(s):
 
 def is_self_method_call(e):
     return (isinstance(e, ast.Call) and attr_name(e.func) is not None and not e.args and not e.keywords)
-
-
-def is_log_func(e):
-    return isinstance(e, ast.Attribute) and e.attr == 'log10' and isinstance(e.value, ast.Name) and e.value.id in ('np', 'math')
 
 
 class Prep:
